@@ -54,19 +54,24 @@ class Result:
         self.ambient = []       # (what, lineno, funcref)
         self.ret = Val()
         self.ext_calls = []     # (obj, method, lineno, [arg Vals])
+        self.ext_ctx = []       # aligned with ext_calls: (control context at the call, sequence number) - for the dominance ("must precede") test
         self.field_writes = []  # (field, lineno, Val, funcref)
         self.funcs = []
         self.unknown_calls = []
+        self.tests = []         # (source text of an undecided branch test, deps, lineno, funcref)
 
 
 class Effects:
-    def __init__(self, nullness=None, class_cfg=None, max_depth=7):
+    def __init__(self, nullness=None, class_cfg=None, max_depth=7, forced=None):
+        self.forced = forced or {}              # source text of a branch test -> assumed truth value (case split over configuration tests)
         self.nullness = nullness or {}          # param name -> True (is None) / False (not None)
         # per class name: dict(ext={fields holding third-party objects}, attrs={field: ClassSrc analysed from source})
         self.class_cfg = class_cfg or {}
         self.max_depth = max_depth
         self.res = Result()
         self.depth = 0
+        self._ctx = []          # control context: tokens of the conditional regions enclosing the current program point
+        self._seq = 0
 
     # ---------------------------------------------------------------- entry
     def analyse(self, func, arg_vals=None, self_cls=None):
@@ -116,7 +121,23 @@ class Effects:
             r = self.stmt(s, env)
             if r is not None:
                 ret = ret | r
+            if not isinstance(s, ast.Return) and any(isinstance(n_, ast.Return) for n_ in ast.walk(s)):
+                # the rest of this function runs only if the compound statement did not return: conditional region up to the function's end
+                self._ctx.append(('after-return', id(s)))
         return ret
+
+    def region(self, token, fn):
+        n_ = len(self._ctx)
+        self._ctx.append(token)
+        try:
+            return fn()
+        finally:
+            del self._ctx[n_:]
+
+    @staticmethod
+    def dominates(a, b):
+        """(ctx, seq) of call a must-precedes call b: a is earlier and lies in a region enclosing (or equal to) b's"""
+        return a[1] < b[1] and len(a[0]) <= len(b[0]) and tuple(b[0][:len(a[0])]) == tuple(a[0])
 
     def stmt(self, s, env):
         if isinstance(s, ast.Expr):
@@ -147,13 +168,18 @@ class Effects:
             return self.expr(s.value, env) if s.value is not None else Val()
         elif isinstance(s, ast.If):
             known = self.test_known(s.test, env)
-            self.expr(s.test, env)
+            tv = self.expr(s.test, env)
+            if known is None:
+                src_t = ast.unparse(s.test)
+                self.res.tests.append((src_t, tv.deps, s.lineno, self.cur.ref))
+                if src_t in self.forced:
+                    known = self.forced[src_t]
             if known is True:
                 return self.block(s.body, env)
             if known is False:
                 return self.block(s.orelse, env)
             e1, e2 = dict(env), dict(env)
-            r1 = self.block(s.body, e1); r2 = self.block(s.orelse, e2)
+            r1 = self.region(('if', id(s), 0), lambda: self.block(s.body, e1)); r2 = self.region(('if', id(s), 1), lambda: self.block(s.orelse, e2))
             for k in set(e1) | set(e2):
                 env[k] = e1.get(k, Val()) | e2.get(k, Val())
             return r1 | r2
@@ -166,7 +192,7 @@ class Effects:
                 self.expr(s.test, env)
             for _ in range(2):          # two passes reach the fixpoint for this flat lattice of sets
                 e1 = dict(env)
-                ret = ret | self.block(s.body, e1)
+                ret = ret | self.region(('loop', id(s)), lambda: self.block(s.body, e1))
                 for k in e1:
                     env[k] = env.get(k, Val()) | e1[k]
                 if isinstance(s, ast.While):
@@ -180,10 +206,10 @@ class Effects:
                     self.assign(it.optional_vars, v, env, s.lineno)
             return self.block(s.body, env)
         elif isinstance(s, ast.Try):
-            r = self.block(s.body, env)
+            r = self.region(('try', id(s)), lambda: self.block(s.body, env)) if s.handlers else self.block(s.body, env)
             for h in s.handlers:
-                r = r | self.block(h.body, env)
-            r = r | self.block(s.orelse, env) | self.block(s.finalbody, env)
+                r = r | self.region(('handler', id(h)), lambda h=h: self.block(h.body, env))
+            r = r | self.region(('try-else', id(s)), lambda: self.block(s.orelse, env)) | self.block(s.finalbody, env)
             return r
         elif isinstance(s, (ast.Raise, ast.Pass, ast.Import, ast.ImportFrom, ast.Assert, ast.Break, ast.Continue, ast.Global)):
             if isinstance(s, ast.Assert):
@@ -263,9 +289,9 @@ class Effects:
         if isinstance(e, ast.UnaryOp):
             return Val({FRESH}, self.expr(e.operand, env).deps)
         if isinstance(e, ast.BoolOp):
-            v = Val()
-            for x in e.values:
-                v = v | self.expr(x, env)
+            v = self.expr(e.values[0], env)
+            for k_, x in enumerate(e.values[1:]):
+                v = v | self.region(('boolop', id(e), k_), lambda x=x: self.expr(x, env))
             return v
         if isinstance(e, ast.Compare):
             v = self.expr(e.left, env)
@@ -279,7 +305,7 @@ class Effects:
                 return self.expr(e.body, env)
             if known is False:
                 return self.expr(e.orelse, env)
-            return self.expr(e.body, env) | self.expr(e.orelse, env)
+            return self.region(('ifexp', id(e), 0), lambda: self.expr(e.body, env)) | self.region(('ifexp', id(e), 1), lambda: self.expr(e.orelse, env))
         if isinstance(e, (ast.Tuple, ast.List, ast.Set)):
             v = Val({FRESH}, ())
             for x in e.elts:
@@ -295,6 +321,8 @@ class Effects:
         if isinstance(e, (ast.ListComp, ast.GeneratorExp, ast.SetComp, ast.DictComp)):
             env2 = dict(env)
             v = Val({FRESH}, ())
+            n_ctx = len(self._ctx)
+            self._ctx.append(('comp', id(e)))
             for g in e.generators:
                 it = self.expr(g.iter, env2)
                 self.assign(g.target, Val(it.alias, it.deps), env2, getattr(e, 'lineno', 0))
@@ -304,6 +332,7 @@ class Effects:
             for p in parts:
                 pv = self.expr(p, env2)
                 v = Val(v.alias | (pv.alias - {FRESH}), v.deps | pv.deps)
+            del self._ctx[n_ctx:]
             return v
         if isinstance(e, ast.JoinedStr):
             v = Val({FRESH}, {'const'})
@@ -405,6 +434,8 @@ class Effects:
             if exts:
                 obj = exts[0][4:]
                 self.res.ext_calls.append((obj, m, e.lineno, args, kws))
+                self._seq += 1
+                self.res.ext_ctx.append((tuple(self._ctx), self._seq))
                 # assumed contract (A-ext): the returned value is a function of the call's arguments and of the object's configuration
                 return Val({'extret:%s.%s' % (obj, m)}, allv.deps | {'extret:%s.%s' % (obj, m)})
             fields = [o for o in recv.alias if o.startswith('field:')]
@@ -478,10 +509,13 @@ class Effects:
         self._cls_stack.append(cls or fs.cls)
         if fs not in self.res.funcs:
             self.res.funcs.append(fs)
+        n_ctx = len(self._ctx)
         try:
             ret = self.block(fs.node.body, sub_env)
         finally:
             self._cls_stack.pop(); self._func_stack.pop(); self.depth -= 1
+            had_early_return = any(t[0] == 'after-return' for t in self._ctx[n_ctx:])
+            del self._ctx[n_ctx:]
         # contents of mutable arguments may now depend on what the callee stored into them
         if isinstance(node, ast.Call):
             names = [p.arg for p in a.posonlyargs + a.args]
